@@ -195,6 +195,7 @@ def run_direct(rng, n, fns, known_filter=None, gen_kw=None, res=None):
     skipped = 0
     for cid in range(n):
         case = direct.gen_real_case(rng, cid, **gen_kw)
+        common.note_case('direct', repr(case['chain']), np.ascontiguousarray(case['X'], dtype=float), case['nu'], case['ep'])
         # inputs the estimators themselves reject at fit / plain transform time are not
         # in the property's domain: skipped and counted
         try:
